@@ -172,6 +172,9 @@ func runC19(c *Ctx) {
 		`{"swagger":"2.0","info":{"title":"t","version":"1"},"paths":{"/a":{"get":{"responses":{"200":{"description":"d","headers":{"X-Rate":{"type":"array","x-nullable":true,"items":{"type":"array","x-nullable":true,"items":{"type":"integer","x-nullable":true}}}}}}}}}}`,
 		`{"swagger":"2.0","info":{"title":"t","version":"1"},"paths":{"/a":{"get":{"parameters":[{"$ref":"#/parameters/tags"}],"responses":{"200":{"description":"d"}}}}},"parameters":{"tags":{"name":"tags","in":"header","type":"array","items":{"type":"string","x-nullable":true,"x-example":"a"},"x-example":["a"]}}}`,
 		`{"swagger":"2.0","info":{"title":"t","version":"1"},"paths":{},"definitions":{"d":{"type":"object","x-nullable":true,"x-order":3,"properties":{"p":{"type":"string","x-nullable":false,"x-order":"2"}}}}}`,
+		// security requirements whose scope lists name nothing the scheme declares (the meta-schema does not tie them)
+		`{"swagger":"2.0","info":{"title":"t","version":"1"},"paths":{"/a":{"get":{"security":[{"api_key":["tenant"]},{"oauth":["undeclared"]},{"oauth":["read","other"]}],"responses":{"200":{"description":"d"}}}}},"security":[{"api_key":["tenant"]},{"basic_auth":["x","y"]}],"securityDefinitions":{"api_key":{"type":"apiKey","name":"k","in":"header"},"basic_auth":{"type":"basic"},"oauth":{"type":"oauth2","flow":"password","tokenUrl":"http://a/t","scopes":{"read":"r"}}}}`,
+		`{"swagger":"2.0","info":{"title":"t","version":"1"},"paths":{},"security":[{"nowhere":["s"]},{"api_key":[]}],"securityDefinitions":{"api_key":{"type":"apiKey","name":"k","in":"query"}}}`,
 	}
 	for _, b := range boundary {
 		cands = append(cands, wire.MustParse(b))
